@@ -108,6 +108,7 @@ class Facts:
         self.raw = d
         self.types = d["types"]
         self.consts = {c["name"]: c for c in d["consts"]}
+        self.statics = {c["name"]: c for c in d.get("statics", [])}
         self.bodies = {}
         for b in d["bodies"]:
             if b["key"] in self.bodies:
